@@ -273,7 +273,16 @@ CLAIMED.update({
              note=_API_NOTE + "Stub pyarrow. Several cumulative regions (holes in non-last partitions, one-column frames) are the listed known finding C46-cumulative-holes. Outside: "
                   "pct_change (absent), time-based center=True, groupby().rolling().", design_ref="DESIGN.md sec. 9a"),
 })
-for _k in ("C22", "C27", "C35", "C40", "C46"):
+CLAIMED["C25"] = dict(
+    text="No kernel of its own: pipelines of 1-3 operations drawn by the solver from a table of 54 operation entries (elementwise, indexing, setitem, reductions, "
+         "rechunk, structural, overlap, counting/search routines) on small 1-d/2-d/3-d arrays with every chunking (zero-size and size-1 chunks included) are run through the "
+         "public API; for every resulting array: computed shape == lazy shape (non-NaN entries), dtype == lazy dtype, every block computed separately by raw key, "
+         "to_delayed() and .blocks[idx] has the shape and dtype .chunks/.dtype declare, and the blocks joined by block index equal compute(). Bounded exhaustive over "
+         "the enumerated inputs; no value oracle (other properties compare values).",
+    note=_API_NOTE + "Regions of other properties' open findings (degenerate axes, empty chunks in arg reductions / scans / n-d min-max, bincount minlength) are excluded by "
+         "model variables; three zero-size-chunk gaps found here are listed known findings. Outside: pipelines > 3 operations, linear algebra, fft, random, masked arrays.",
+    design_ref="DESIGN.md sec. 9a")
+for _k in ("C22", "C25", "C27", "C35", "C40", "C46"):
     CLAIMED[_k]["technique"] = ("bounded symbolic execution of the real Python kernels with z3 (symx) plus solver-enumerated, exhausted input spaces through the public API against "
                                 "NumPy/pandas, per-path native replay")
 
